@@ -204,6 +204,8 @@ func runC09(env *lib.Env, rep *lib.Report) {
 	}
 	voc := c09Vocabulary()
 	lib.StartWatchdog(env, rep, &r.prog, 45*time.Second, "parser-hang")
+	r.prog.MapJournal(env.Journal)
+	defer r.prog.Done()
 	// ---- (i) byte strings
 	alphabet := []byte{'a', 'S', '1', '0', '\'', '"', '`', '\\', '\n', ' ', '(', ')', ',', '.', ';', '*', '=', '!', '<', '>', '-', '+', '/', '_', 0x00, 0x80, 0xff, 0xef, '\t', '9', 'e', 'x', 'b'}
 	maxLen := 5
